@@ -12,7 +12,7 @@ func init() {
 	register(&propertyDef{
 		id:    "C19",
 		title: "invalid input starts nothing; steps see the schema-normalised input",
-		rules: []ruleFunc{c19R1, c19R2, c19R3, c19R4},
+		rules: []ruleFunc{c19R1, c19R2, c19R3, c19R4, c19R5, c19R6},
 		decided: "in Execute every step start, every go statement and the construction of the run state are dominated by the success edges of input.Unserialize and input.Serialize (R1); the value stored under the data model's `input` key is Serialize(Unserialize(caller's input)) and nothing else writes that key (R2); " +
 			"the engine entry point passes the decoded document unchanged to Execute and returns before it on a decode error (R3). Shared: the loop step does not write into the item list it received from the data model (R4 = C13.R4).",
 		notDecided: "what normalisation does (pluginsdk); what each step observes (needs runs).",
@@ -268,4 +268,38 @@ func c19R3(c *Ctx) {
 			fmt.Sprintf("the input handed to Execute is not the decoded caller input (from-Raw=%v decode-checked=%v decodes-parameter=%v)", fromRaw, guarded, parsesParam))
 	})
 	c.minCount(rule, "Execute calls in engineWorkflow.Run", n, 1)
+}
+
+// C19.R5 the decoded input document is the whole document.
+func c19R5(c *Ctx) {
+	const rule = "C19.R5"
+	c.explain("C19.R5 Node.Raw of the engine's YAML reader, through which engineWorkflow.Run decodes the input document before it is validated, converts every entry of a mapping and every item of a sequence: no iteration of its loops is left without adding the entry to the result. An entry that is dropped here (an explicit null, say) never reaches the schema check: an undeclared or ill-typed field is accepted and the step runs")
+	var raws []*ssa.Function
+	for _, fn := range c.RepoFns {
+		if c.excluded(fn) || funcSimpleName(fn) != "Raw" || fn.Signature.Recv() == nil || !strings.HasSuffix(pkgPathOf(fn), "internal/yaml") {
+			continue
+		}
+		raws = append(raws, fn)
+	}
+	n := 0
+	for _, fn := range raws {
+		for _, body := range c.logicalBody(fn) {
+			for i, li := range loopsOf(body) {
+				n++
+				adds := func(in ssa.Instruction) bool {
+					switch x := in.(type) {
+					case *ssa.MapUpdate:
+						return true
+					case *ssa.Store:
+						_, isIdx := x.Addr.(*ssa.IndexAddr)
+						return isIdx
+					}
+					return false
+				}
+				p := c.iterationSkips(li, adds)
+				c.verdict(p == nil, rule, fmt.Sprintf("every-entry@%s#%d", c.fnName(body), i+1), c.blockPos(li.Header), "every iteration adds its entry to the result", "an iteration of the conversion loop can be left without adding the entry: "+strings.Join(p, " -> "))
+			}
+		}
+	}
+	c.minCount(rule, "conversion loops of Node.Raw", n, 2)
 }
